@@ -61,6 +61,8 @@ class Scheduler:
         return [None] * len(tasks)
 
 
+
+
 def make_input(rng, d, chunk, max_wf, kind=None, ns=None, trim=None, stale_header=None):
     kind = kind or str(rng.choice(["3B2", "NP2.4"]))
     ns = ns or int(rng.integers(12000, 30000))
@@ -93,7 +95,9 @@ def make_input(rng, d, chunk, max_wf, kind=None, ns=None, trim=None, stale_heade
             k = {"few": int(rng.integers(1, max_wf)) if max_wf > 1 else 1, "exact": max_wf, "many": max_wf + int(rng.integers(1, 3 * max_wf + 2))}[mode]
             t = rng.choice(np.arange(lo + 1, hi), k, replace=False)
             t = np.r_[t, rng.integers(0, lo + 1, int(rng.integers(0, 3))), rng.integers(hi, ns, int(rng.integers(0, 3)))]      # + some invalid
-        t = np.unique(np.r_[t, rng.choice(special, int(rng.integers(2, 8)))].astype(np.int64))
+        # (a unit of mode "none" - the one with the LOWEST id is one - keeps no extractable spike: only the special times that are not valid)
+        pool = special if mode != "none" else ([s_ for s_ in special if not (lo < s_ < hi)] or [0])
+        t = np.unique(np.r_[t, rng.choice(pool, int(rng.integers(2, 8)))].astype(np.int64))
         if mode == "few":       # spikes exactly ON the margins are not 'farther than the margins': they must not be counted nor extracted
             t = np.unique(np.r_[t, lo, hi, hi - 1, hi - int(rng.integers(2, 40)), lo + 1])      # ... the very first and the very last valid samples are
         pk = rng.integers(0, rec.n, t.size)
